@@ -23,11 +23,11 @@ def run(ctx):
             continue
         cases.append({'mode': 'record', 'torn': True, 'steps': h, 'warm': ctx.rng.choice([0, 0, 0, 7, 8, 9, 9, 98]), **CONSTS})
     total_hist = len(cases)
-    budget = 600 if tier == 'quick' else 4000
+    budget = 600 if tier == 'quick' else 2000
     chosen = vlib.sample_list(ctx.rng, cases, budget)
     ctx.exhaustive = (len(chosen) == total_hist)
     binary = ctx.go_build('dq')
-    res, lines = ctx.replay(binary, chosen, timeout=1500)
+    res, lines = ctx.replay(binary, chosen, timeout=1500 if tier == 'quick' else 2400)
     ctx.absorb(res, lines)
     # 3. byte-level: every crashed state
     gb = ctx.tlc('DQBytes', f'DQBytes.{tier}.cfg', timeout=1500, dump=True)
@@ -41,9 +41,9 @@ def run(ctx):
         bcases.append({'mode': 'bytes', 'file': st['file'], 'appended': st['appended'], 'inflight': st['inflight'],
                        'infl': st['infl'], 'nadv': st['nadv'], 'modelOk': st['obs']['ok'],
                        'modelDelivered': st['obs']['delivered'], 'crashK': st['crashK']})
-    bbudget = 15000 if tier == 'quick' else 150000
+    bbudget = 15000 if tier == 'quick' else 90000
     bchosen = vlib.sample_list(ctx.rng, bcases, bbudget)
-    res2, lines2 = ctx.replay(binary, bchosen, timeout=1500)
+    res2, lines2 = ctx.replay(binary, bchosen, timeout=1500 if tier == 'quick' else 2400)
     ctx.absorb(res2, lines2)
     ctx.extra_cov['record_histories_total'] = total_hist
     ctx.extra_cov['record_histories_replayed'] = len(chosen)
